@@ -302,7 +302,7 @@ var reNodeCtx = regexp.MustCompile(`node:[A-Za-z_]+(\d+)$`)
 
 // errsByNode counts the error reports of every pipeline node.  Node ids are
 // assigned in creation order: source 0, from/query 1, sink s0 2, then per
-// descriptor the node and its sink (a tap is a sink only).
+// descriptor the node and its sink (a tap is a sink only, a bare node has none).
 func errsByNode(p Pipe, errs []rt.ErrItem) []any {
 	idOf := map[int]int{}
 	next := 3
@@ -312,7 +312,11 @@ func errsByNode(p Pipe, errs []rt.ErrItem) []any {
 			continue
 		}
 		idOf[next] = i
-		next += 2
+		if n.Bare {
+			next++
+		} else {
+			next += 2
+		}
 	}
 	out := make([]int, len(p.Nodes))
 	for _, e := range errs {
